@@ -24,11 +24,11 @@ const (
 
 func init() {
 	register(&Property{
-		ID:  "C01",
-		Run: runC01,
-		Explain: "Static structural necessary conditions of crash-safety of the persistent queue, decided on every path of the code as written: (R1) enqueue writes item body and new write index in ONE storage batch and advances in-memory state only on its success; (R2) dequeue advances the read index, records the index as dispatched and reads the body in ONE batch, the dispatched list containing the index before it is serialised; (R3) the only code that can delete an item body is the completion callback (on the non-shutdown side), the dequeue-failure path and start-up recovery; the completion callback receives the consumer's error unchanged; (R4) start-up recovery re-enqueues before it deletes (no path from a delete batch to the enqueue call); (R5) the retry sender's stop branch returns a shutdown-classified error and every function between the retry sender and Done.OnDone preserves the error chain; (R6) the storage client is closed only by the unref helper under refCount==0, referenced on each successful dispatch and released by a deferred unref in the completion callback; (R7) must-lockset: every access to the queue's mutable fields happens under the queue mutex.",
+		ID:         "C01",
+		Run:        runC01,
+		Explain:    "Static structural necessary conditions of crash-safety of the persistent queue, decided on every path of the code as written: (R1) enqueue writes item body and new write index in ONE storage batch and advances in-memory state only on its success; (R2) dequeue advances the read index, records the index as dispatched and reads the body in ONE batch, the dispatched list containing the index before it is serialised; (R3) the only code that can delete an item body is the completion callback (on the non-shutdown side), the dequeue-failure path and start-up recovery; the completion callback receives the consumer's error unchanged; (R4) start-up recovery re-enqueues before it deletes (no path from a delete batch to the enqueue call); (R5) the retry sender's stop branch returns a shutdown-classified error and every function between the retry sender and Done.OnDone preserves the error chain; (R6) the storage client is closed only by the unref helper under refCount==0, referenced on each successful dispatch and released by a deferred unref in the completion callback; (R7) must-lockset: every access to the queue's mutable fields happens under the queue mutex.",
 		NotDecided: "Atomicity of the storage extension's Batch; enumeration of crash points (needs executions); losses caused by storage errors (the dequeue-failure path deletes deliberately); recovery when re-enqueue is refused for capacity; duplicate-delivery bounds.",
-		Assumes: []string{"storage.Client.Batch is atomic and durable when it returns nil (the property's own assumption: crash points are between storage calls)", "component contract: Start happens-before Offer/Read/Shutdown"},
+		Assumes:    []string{"storage.Client.Batch is atomic and durable when it returns nil (the property's own assumption: crash points are between storage calls)", "component contract: Start happens-before Offer/Read/Shutdown"},
 	})
 }
 
@@ -248,12 +248,12 @@ func isIncrementOf(s *ssa.Store, T *types.Named, f string, delta int64) bool {
 }
 
 type pqAnchors struct {
-	pk      *packages.Package
-	T       *types.Named
-	methods []*ssa.Function
-	all     []*ssa.Function // methods + their anon funcs
+	pk                                                  *packages.Package
+	T                                                   *types.Named
+	methods                                             []*ssa.Function
+	all                                                 []*ssa.Function // methods + their anon funcs
 	enqueue, dequeue, finish, recovery, complete, unref *ssa.Function
-	client  string
+	client                                              string
 }
 
 func findPQ(p *Prog) *pqAnchors {
@@ -611,7 +611,9 @@ func runC01(c *Ctx) {
 			if fn.Name() != "OnDone" || fn.Parent() != nil {
 				continue
 			}
-			for _, ci := range calls(fn, func(ci ssa.CallInstruction) bool { return ci.Common().IsInvoke() && ci.Common().Method.Name() == "onDone" }) {
+			for _, ci := range calls(fn, func(ci ssa.CallInstruction) bool {
+				return ci.Common().IsInvoke() && ci.Common().Method.Name() == "onDone"
+			}) {
 				args := ci.Common().Args
 				last := args[len(args)-1]
 				_, isParam := strip(last).(*ssa.Parameter)
